@@ -17,6 +17,10 @@ def explore(g, tid=0, max_events=4000, mode='auto', with_conn=True, seed=0):
         b = build(g)
     except SkipInput as e:
         return {'tid': tid, 'skip': str(e)}
+    except Exception as e:
+        # the builder API itself raised (recorded as an Init event with an error; judged by the monitor)
+        return {'tid': tid, 'g': g, 'trunc': False, 'mode': 'none',
+                'ev': [{'e': 'Init', 'p': 0, 'c': 0, 'k': 0, 'q': 0, 'auto': [], 'err': type(e).__name__, 'obs': EMPTY_OBS}]}
     import random
     rng = random.Random(seed*31+tid)
     ev = []
